@@ -274,20 +274,23 @@ def clustering_case(ctx, report, sm, scratch):
             pass
     ctx.count(key=f"clustering-report:platforms={len(plats)}")
     rows = [[c.strip() for c in ln.strip().strip("│").split("│")] for ln in buf.getvalue().splitlines() if ln.strip().startswith("│")]
-    if not rows or rows[0][1:] != plats or [r[0] for r in rows[1:]] != plats:
+    header = rows[0][1:] if rows else []
+    if not rows or sorted(header) != sorted(plats) or [r[0] for r in rows[1:]] != header:
         ctx.corr_break("clustering-report layout", case, rows[:2], {"header": plats})
         return
+    # the cell in the row labelled p and the column labelled q is the distance of p and q, whatever order the labels are in
+    idx = {p: k for k, p in enumerate(plats)}
     bad = []
-    for i, p in enumerate(plats):
-        for j, q in enumerate(plats):
+    for i, p in enumerate(header):
+        for j, q in enumerate(header):
+            w = want["matrix"][idx[p]][idx[q]]
             try:
                 cell = Fraction(rows[1 + i][1 + j])
             except (ValueError, IndexError):
                 bad.append(f"cell ({p},{q}) is {rows[1 + i][1 + j:2 + j]}")
                 continue
-            if abs(cell - want["matrix"][i][j]) > Fraction(5, 1000) + Fraction(TOL):
-                bad.append(f"printed distance({p},{q}) = {rows[1 + i][1 + j]}, the Jaccard distance of their line sets is {want['matrix'][i][j]} "
-                           f"= {float(want['matrix'][i][j]):.4f}")
+            if abs(cell - w) > Fraction(5, 1000) + Fraction(TOL):
+                bad.append(f"printed distance({p},{q}) = {rows[1 + i][1 + j]}, the Jaccard distance of their line sets is {w} = {float(w):.4f}")
     if bad:
         ctx.violation("clustering report: " + "; ".join(bad[:3]), case)
 
@@ -357,7 +360,9 @@ def run(ctx, drv):
     # the clustering report's printed distance matrix (2-7 platforms, distinct pair distances)
     with core.Scratch() as scratch:
         for i in range(ctx.n(40, 400)):
-            names = NAMES[: ctx.rng.choice([2, 3, 4, 4, 5, 5, 6, 7])]
+            # plain letters, or names whose natural and lexicographic orders differ (p2 / p10): labels and cells must agree
+            pool = NAMES if ctx.rng.random() < 0.5 else ["p0", "p1", "p10", "p11", "p2", "p9", "node2", "node10"]
+            names = sorted(ctx.rng.sample(pool, ctx.rng.choice([2, 3, 4, 4, 5, 5, 6, 7])))
             sm = [([p], ctx.rng.randint(1, 9)) for p in names]
             for _ in range(ctx.rng.randint(2, 10)):
                 sm.append(([p for p in names if ctx.rng.random() < 0.5], ctx.rng.choice([0, 1, 2, 3, 5, 10, 40])))
